@@ -339,6 +339,30 @@ pub fn handle(op: &str, req: &Value) -> Option<Value> {
                 || (after["term"] == before["term"] && !before["voted_for"].is_null() && after["voted_for"] != before["voted_for"]);
             json!({"before": before, "after": after, "violates": bad})
         },
+        "raft_become_leader_twice" => {
+            // first leadership: peers acknowledge `old_match`; step down through a higher-term AppendEntries (keeps the old
+            // leader state around); second leadership: replication state must start from zero
+            let node = build(req);
+            node.become_leader();
+            let term = node.current_term();
+            let peers: Vec<String> = req["peers"].as_array().map(|a| a.iter().map(sid).collect()).unwrap_or_default();
+            for (i, m) in req["old_match"].as_array().into_iter().flatten().enumerate() {
+                let mi = m.as_u64().unwrap_or(0).min(node.last_log_index());
+                if mi > 0 && i < peers.len() {
+                    let msg = AppendEntriesResponse { term, success: true, follower_id: peers[i].clone(), match_index: mi, used_fast_path: false };
+                    let _ = node.handle_message(&peers[i], &Message::AppendEntriesResponse(msg));
+                }
+            }
+            let first: Vec<Option<(u64, u64)>> = peers.iter().map(|p| node.verif_replication_state(p)).collect();
+            let ae = AppendEntries { term: term + 1, leader_id: peers.first().cloned().unwrap_or_default(), prev_log_index: 0, prev_log_term: 0, entries: vec![], leader_commit: 0, block_embedding: None };
+            let _ = node.handle_message(&ae.leader_id.clone(), &Message::AppendEntries(ae));
+            node.start_election();
+            node.become_leader();
+            let second: Vec<Option<(u64, u64)>> = peers.iter().map(|p| node.verif_replication_state(p)).collect();
+            let last = node.last_log_index();
+            let bad = second.iter().any(|r| match r { Some((next, mat)) => *mat != 0 || *next != last + 1, None => true });
+            json!({"first_leadership": first, "second_leadership": second, "last_log_index": last, "violates": bad})
+        },
         "raft_leader_commit" => {
             // leader = with_state + become_leader; then current-term success responses set match_index as in the witness
             let mut r2 = req.clone();
